@@ -94,6 +94,15 @@ CHECKS.update({
         technique="TLA+ Walk machine + recursive pass definitions, TLC exhaustive export replayed on real ast nodes, TLC-judged logs of random large trees", ref="5 (C13)"),
 })
 
+CHECKS.update({
+    "C17": dict(engine=PM,
+        text="C17MC runs ParsleyMachine on the six unambiguous families of the property for n <= 32-64 and its call counter must equal the real Context.CallCount() for "
+             "the same grammar and input (binding); the real combinators are measured twice per (family, n) for n up to 256-512 and C17Trace (TLC) checks the "
+             "doubling predicate calls(2n) <= 16 calls(n), determinism and acceptance on the measured table.",
+        note="one input shape per family and size; the bound is the doubling test of the property, not an asymptotic proof; a run that exceeds 40x the calls of the previous size is stopped and judged on the count reached",
+        technique="TLA+ machine call counter bound to real call counts + TLC-judged doubling predicate on the measured table", ref="5 (C17)"),
+})
+
 NOT_YET = {}
 
 ENGINES = [
@@ -101,7 +110,7 @@ ENGINES = [
     dict(name="Reader", path="spec/Reader.tla", serves_properties=["C09"], kind_free_text="byte-level reader specification + cursor machine; ReaderMC, ReaderTrace"),
     dict(name="Trim", path="spec/Trim.tla", serves_properties=["C10"], kind_free_text="whitespace-mode property statement; TrimMC (machine vs property), TrimTrace"),
     dict(name="FileSet", path="spec/FileSet.tla", serves_properties=["C11"], kind_free_text="TLA+ file-set machine; FileSetMC (export), FileSetTrace"),
-    dict(name="ParsleyMachine", path="spec/ParsleyMachine.tla", serves_properties=["C01", "C02", "C03", "C04", "C06", "C07"],
+    dict(name="ParsleyMachine", path="spec/ParsleyMachine.tla", serves_properties=["C01", "C02", "C03", "C04", "C06", "C07", "C17"],
          kind_free_text="TLA+ explicit-stack machine of the parsing algorithm; Derivation.tla (denotational oracle), Grammar.tla (families), "
                         "ParsleyMC (exhaustive exploration + export), ParsleyTrace (trace validation / judge)"),
     dict(name="IntData", path="spec/IntData.tla", serves_properties=["C15"],
